@@ -113,7 +113,7 @@ func runC09(e *Engine, tier Tier) *PropRun {
 	return &PropRun{
 		Results: rs, FUC: fucList(rs),
 		Claim: func(o *Obligation) bool {
-			return o.Kind == "schema" || (o.Kind == "post" && strings.Contains(o.Name, "isnew("))
+			return o.Kind == "schema" || ((o.Kind == "post" || o.Kind == "inv-init" || o.Kind == "inv-pres") && strings.Contains(o.Name, "isnew("))
 		},
 		Explanation: "Ownership of returned values: Tokenize / TokenizeContext and the token conversion (convert, convertModelTokens, convertModelTokensWithPositions) return slices allocated by the call itself (postcondition isnew(result): the address lies above the allocation mark of the entry state), so no scratch buffer kept by a tokenizer or converter is handed out. " + fmt.Sprintf("Schema pool_clean(pool:T.f), instantiated from go/types for every sync.Pool.Put call site (%d sites) in the AST package (the node pools) and every field f of the pooled type T: at the Put call the field holds its zero value (slices: length 0), for all inputs and all paths through the releasing function, including the per-type cases of the iterative PutExpression. A field added to a pooled node type gets its obligations without anyone writing a test.", sites),
 		NotCovered:  []string{"exprSlicePool (*[]Expression: elements are niled at Put and the length is reset at Get; element-wise cleanliness across PutExpression's writes needs a separation argument that is not built)", "builderPool (strings.Builder, reset by the standard library)", "the all-interleavings clause (answered by ownership: a node is reachable from one live tree or one pool; goroutine-level claims are C10)", "no-retained-alias of token values", "release affects only the released tree (frame over reachability)"},
